@@ -103,7 +103,8 @@ func buildWorld(sc *Scenario) *world {
 	if sc.Unused {
 		w.ctxs["unused"] = runner.NewExecutionContext(nil, "", variables.NewVariables(), cmds([]string{"up:unused"}), cmds([]string{"down:unused"}), nil, nil)
 	}
-	r, err := runner.NewTaskRunner(runner.WithContexts(w.ctxs))
+	// wired the way the CLI wires it: contexts and a variables container shared by the runner and its compiler
+	r, err := runner.NewTaskRunner(runner.WithContexts(w.ctxs), runner.WithVariables(variables.NewVariables()))
 	if err != nil {
 		panic(err)
 	}
@@ -301,6 +302,48 @@ func eventsOf(x *vrt.Execution) []string {
 type verdict struct{ prop, key, desc string }
 
 // explore one scenario for the target property.
+// overlapSetup (C04 on the real runner): the tasks of the scenario are independent; at the first point at
+// which nothing but running commands remains, every one of them must be inside a command.
+func overlapSetup(sc *Scenario) func(*vrt.Sched) {
+	return func(s *vrt.Sched) {
+		first := true
+		s.OnQuiesc = func(parked []string) {
+			if !first {
+				return
+			}
+			first = false
+			inCmd := map[string]bool{}
+			for _, l := range parked {
+				if strings.HasPrefix(l, "tok:") {
+					inCmd[strings.SplitN(strings.TrimPrefix(l, "tok:"), ".", 2)[0]] = true
+				}
+			}
+			var missing []string
+			for _, t := range sc.Tasks {
+				if !inCmd[t.Name] {
+					missing = append(missing, t.Name)
+				}
+			}
+			if len(missing) > 0 {
+				vrt.Fail("C04|independent tasks do not overlap: at the first quiescent point only %v are inside a command, %v have not started theirs", parked, missing)
+			}
+			vrt.Emit("quiescent", strings.Join(parked, ","))
+		}
+	}
+}
+
+func overlapFailures(x *vrt.Execution) *verdict {
+	for _, f := range x.Failures {
+		if kv := strings.SplitN(f, "|", 2); kv[0] == "C04" {
+			return &verdict{"C04", "C04:real-not-concurrent", kv[1]}
+		}
+	}
+	if x.Outcome != vrt.Completed {
+		return &verdict{"C04", "C04:real-" + panicClass(x), fmt.Sprintf("%s %s %v", x.Outcome, x.PanicVal, x.Blocked)}
+	}
+	return nil
+}
+
 func exploreSc(res *common.Result, sc *Scenario, bound int, prune bool) (stop bool) {
 	target := *common.Prop
 	var viol *verdict
@@ -308,12 +351,22 @@ func exploreSc(res *common.Result, sc *Scenario, bound int, prune bool) (stop bo
 	distinct := map[string]bool{}
 	ecfg := vrt.ExploreConfig{Bound: bound, Prune: prune, Deadline: common.Deadline()}
 	ecfg.ShardI, ecfg.ShardN = common.SubShardOf()
+	if sc.Overlap {
+		ecfg.Setup = overlapSetup(sc)
+		ecfg.QuiescentOnly = true // running commands are released only when nothing else can happen
+	}
 	st := vrt.Explore(ecfg, body(sc), func(x *vrt.Execution) bool {
 		if x.Outcome == vrt.Diverged {
 			fmt.Fprintf(os.Stderr, "replay divergence in %s: %s\n", sc, x.PanicVal)
 			os.Exit(2)
 		}
 		distinct[strings.Join(eventsOf(x), ";")] = true
+		if sc.Overlap && target == "C04" {
+			if v := overlapFailures(x); v != nil {
+				viol, vx = v, x
+				return false
+			}
+		}
 		for _, v := range judge(sc, x) {
 			if v.prop == target {
 				v := v
@@ -350,7 +403,11 @@ func exploreSc(res *common.Result, sc *Scenario, bound int, prune bool) (stop bo
 	}
 	if viol != nil {
 		for k := 0; k < 2; k++ {
-			y := vrt.Replay(vx.Choices, nil, body(sc))
+			var setup func(*vrt.Sched)
+			if sc.Overlap {
+				setup = overlapSetup(sc)
+			}
+			y := vrt.Replay(vx.Choices, setup, body(sc))
 			if strings.Join(eventsOf(y), ";") != strings.Join(eventsOf(vx), ";") || y.Outcome != vx.Outcome {
 				fmt.Fprintf(os.Stderr, "non-deterministic replay for %s\n%v\n%v\n", sc, eventsOf(vx), eventsOf(y))
 				os.Exit(2)
@@ -416,12 +473,22 @@ func main() {
 		}
 		var rf replayFile
 		common.ReadReplay(&rf)
-		x := vrt.Replay(rf.Choices, nil, body(&rf.Sc))
+		var setup func(*vrt.Sched)
+		if rf.Sc.Overlap {
+			setup = overlapSetup(&rf.Sc)
+		}
+		x := vrt.Replay(rf.Choices, setup, body(&rf.Sc))
 		fmt.Printf("scenario: %s\noutcome: %s %s\nblocked: %v\nstack: %s\n", rf.Sc.String(), x.Outcome, x.PanicVal, x.Blocked, x.Stack)
 		for _, e := range x.Events {
 			fmt.Println("  ", e)
 		}
 		bad := false
+		if rf.Sc.Overlap && rf.Property == "C04" {
+			if v := overlapFailures(x); v != nil {
+				fmt.Printf("oracle: %s %s: %s\n", v.prop, v.key, v.desc)
+				bad = true
+			}
+		}
 		for _, v := range judge(&rf.Sc, x) {
 			fmt.Printf("oracle: %s %s: %s\n", v.prop, v.key, v.desc)
 			if v.prop == rf.Property {
